@@ -83,10 +83,29 @@ class TracepointConfigService:
         """
         old_hash = self._current_hash
         old_config = self._tracepoint_config
+        self.__continue_unchanged(old_config, new_config)
         self._last_update = ts
         self._current_hash = new_hash
         self._tracepoint_config = new_config
         self.__trigger_update(old_hash, old_config)
+
+    @staticmethod
+    def __continue_unchanged(old_config: List['Trigger'], new_config: List['Trigger']):
+        """
+        Keep the limits of the tracepoints a new config repeats unchanged.
+
+        The service sends the whole config when anything in it changes. A tracepoint that is in the old and in the new
+        config (same id, same kind of action, same condition and arguments) stays installed: what it has used of its
+        fire count, and the time it last fired, are carried over to the new action.
+        """
+        old_actions = [action for trigger in old_config or [] for action in trigger.actions]
+        for trigger in new_config or []:
+            for action in trigger.actions:
+                for old in old_actions:
+                    if old.action_type == action.action_type and old == action:
+                        action.continue_from(old)
+                        old_actions.remove(old)
+                        break
 
     def __trigger_update(self, old_hash, old_config):
         ts = self._last_update
